@@ -142,6 +142,12 @@ func runPlScenario(r Rng, sc plScenario) *plRun {
 				b.chanCap, b.lazy = 0, 40*time.Millisecond
 			case "unbuf":
 				b.chanCap = 0
+			case "abandon": // unbuffered, nobody ever receives (deadline stops only)
+				b.chanCap, b.abandon = 0, true
+			case "lazy-empty": // the actor answers an empty batch itself
+				b.kind, b.nrows, b.chanCap, b.lazy = "empty", 0, 0, 40*time.Millisecond
+			case "lazy-bad": // ... and a batch with an unmarshalable row
+				b.kind, b.nrows, b.chanCap, b.lazy = "bad", 1, 0, 40*time.Millisecond
 			}
 		}
 		b.ch = make(chan error, b.chanCap)
@@ -511,6 +517,10 @@ func runPipeline(c *ctx, which string) {
 		{Name: "very-late-afterfunc", IngestCap: 4, MaxRows: 1, Producers: 1, PerProducer: 4, Start: "normal", Store: "stall", Stop: "deadline-very-late-afterfunc", Unbuffered: 0.4, Abandoned: true},
 		{Name: "lazy-first-waiter", IngestCap: 6, MaxRows: 50, Producers: 1, PerProducer: 4, Start: "normal", Store: "fast", Stop: "graceful", Flushers: 1, Pattern: []string{"lazy", "buf", "lazy", "buf"}},
 		{Name: "lazy-first-waiter-at-stop", IngestCap: 6, MaxRows: 50, Producers: 1, PerProducer: 3, Start: "normal", Store: "fast", Stop: "graceful", Pattern: []string{"lazy", "buf", "buf"}},
+		{Name: "lazy-self-answered-at-stop", IngestCap: 6, MaxRows: 50, Producers: 1, PerProducer: 2, Start: "normal", Store: "fast", Stop: "graceful", Pattern: []string{"lazy-empty", "lazy-bad"}},
+		{Name: "lazy-self-answered-at-stop-2", IngestCap: 6, MaxRows: 50, Producers: 1, PerProducer: 3, Start: "normal", Store: "fast", Stop: "graceful", Pattern: []string{"lazy-bad", "buf", "lazy-empty"}},
+		{Name: "abandoned-first-waiter-deadline", IngestCap: 6, MaxRows: 3, Producers: 1, PerProducer: 3, Start: "normal", Store: "stall", Stop: "deadline", Abandoned: true, Pattern: []string{"abandon", "buf", "buf"}},
+		{Name: "abandoned-middle-waiter-deadline", IngestCap: 6, MaxRows: 4, Producers: 1, PerProducer: 4, Start: "normal", Store: "stall", Stop: "deadline", Abandoned: true, Pattern: []string{"buf", "abandon", "unbuf", "buf"}},
 		{Name: "before-start", IngestCap: 3, MaxRows: 2, Producers: 2, PerProducer: 3, BeforeStart: 3, Start: "normal", Store: "fast", Stop: "graceful"},
 		{Name: "late-afterfunc", IngestCap: 4, MaxRows: 1, Producers: 1, PerProducer: 4, Start: "normal", Store: "stall", Stop: "deadline-late-afterfunc"},
 		{Name: "deadline-wedged", IngestCap: 2, MaxRows: 1, Producers: 2, PerProducer: 4, Start: "normal", Store: "stall", Stop: "deadline", Unbuffered: 0.4, Abandoned: true},
